@@ -206,6 +206,29 @@ func mutate(rng *rand.Rand, b []byte) ([]byte, string) {
 	}
 }
 
+// badEntryAfterCount rewrites the last "entries" count of a delta to a huge number and replaces the first byte
+// of the element that follows (the start of an entry map) by something that is not a map.
+func badEntryAfterCount(rng *rand.Rand, b []byte) []byte {
+	key := []byte("\xa7entries")
+	at := -1
+	for i := 0; i+len(key) < len(b); i++ {
+		if string(b[i:i+len(key)]) == string(key) {
+			at = i
+		}
+	}
+	if at < 0 {
+		return b
+	}
+	j := at + len(key)
+	huge := [][]byte{{0xce, 0x7f, 0xff, 0xff, 0xff}, {0xcf, 0x40, 0, 0, 0, 0, 0, 0, 0}, {0xd3, 0xff, 0xff, 0xff, 0xff, 0xff, 0xff, 0xff, 0xff}}[rng.Intn(3)]
+	bad := [][]byte{{0x2a}, {0xc1}, {0xa1, 'x'}}[rng.Intn(3)]
+	out := append(append(append([]byte{}, b[:j]...), huge...), bad...)
+	if j+2 <= len(b) {
+		out = append(out, b[j+2:]...)
+	}
+	return out
+}
+
 // hostile interleaves normal gossip with malformed / hostile datagrams and
 // streams presented to the handlers of live nodes.
 func hostile(c *gsim.Cluster, sf *schedFile, rng *rand.Rand, n int, emit func(*gsim.Step)) {
@@ -244,7 +267,23 @@ func hostile(c *gsim.Cluster, sf *schedFile, rng *rand.Rand, n int, emit func(*g
 		o := pick(nodes)
 		var b []byte
 		var note string
-		switch rng.Intn(7) {
+		switch rng.Intn(9) {
+		case 7:
+			// a well-formed delta about another node whose versions are more than 2^63 above what everybody holds
+			x := pick(nodes)
+			d := []gossip.VerifDeltaEntry{{ID: x, Addr: "1.2.3.4:3", Entries: []gossip.Entry{
+				{Key: "far1", Value: "v", Version: 1<<63 + 5}, {Key: "far2", Value: "w", Version: 1<<63 + 6},
+			}}}
+			b, _ = gossip.VerifEncodeDelta("attacker", "6.6.6.6:6", d, 60000)
+			note = "forged-delta-far-versions"
+		case 8:
+			// a structurally valid delta whose node header announces an absurd entry count and whose first
+			// entry is not an entry at all
+			d := []gossip.VerifDeltaEntry{{ID: pick(nodes), Addr: "1.2.3.4:4", Entries: []gossip.Entry{
+				{Key: "k1", Value: "v", Version: 7}, {Key: "k2", Value: "w", Version: 8},
+			}}}
+			b, _ = gossip.VerifEncodeDelta("attacker", "6.6.6.6:6", d, 60000)
+			b, note = badEntryAfterCount(rng, b), "entries-count-bad-entry"
 		case 5:
 			// identifiers that are not valid UTF-8 (a msgpack string is just bytes), from the sender and about others
 			bad := []string{"\xff\xfe\xfd", "\xc3\x28", "ok\x80", strings.Repeat("\xf0", 40)}
